@@ -120,6 +120,7 @@ class _State:
         self.overlap_unspecified = 0
         self.in_function = 0
         self.funcs_entered = set()
+        self.np_alias = []        # (caller's ndarray, tensor sharing its memory) from as_tensor / from_numpy
         self.uninit = set()       # atoms standing for never-written memory (torch.empty / new_empty / empty_like)
 
 
@@ -565,6 +566,9 @@ class Tensor:
             raise RuntimeError('Boolean value of Tensor with more than one value is ambiguous')
         v = self.a.reshape(-1)[0]
         return bool(v)
+
+    def nonzero(self, as_tuple=False):
+        return nonzero(self, as_tuple=as_tuple)
 
     def item(self):
         if self.a.size != 1:
@@ -1093,14 +1097,34 @@ def _flatten(x):
             yield v
 
 
+def _np_dtype_of(a):
+    return {2: float16, 4: float32, 8: float64}.get(a.dtype.itemsize) if a.dtype.kind == 'f' else None
+
+
 def as_tensor(data, dtype=None, device=None):
     if isinstance(data, Tensor):
         return data.to(dtype) if dtype is not None else data
-    return tensor(data, dtype=dtype)
+    t = tensor(data, dtype=dtype)
+    if isinstance(data, np.ndarray) and data.dtype.kind == 'f' and (dtype is None or dtype is _np_dtype_of(data)):
+        STATE.np_alias.append((data, t))      # torch shares the array's memory in this case
+    return t
 
 
 def from_numpy(a):
-    return tensor(a)
+    t = tensor(a)
+    if isinstance(a, np.ndarray) and a.dtype.kind == 'f':
+        STATE.np_alias.append((a, t))
+    return t
+
+
+def sync_np_aliases():
+    """tensors created by as_tensor / from_numpy share memory with the caller's NumPy array: after the harness has modified
+    such an array in place, re-read it into the (object-array) storage of the aliasing tensor, in place"""
+    for arr, t in STATE.np_alias:
+        if t.a.dtype != object or t.a.shape != arr.shape:
+            continue
+        for idx in np.ndindex(*arr.shape):
+            t.a[idx] = Poly.const(Fraction(float(arr[idx])))
 
 
 def zeros(*sh, dtype=None, device=None, requires_grad=False, out=None):
@@ -1236,6 +1260,22 @@ def stack(ts, dim=0, out=None):
 
 def unbind(t, dim=0):
     return t.unbind(dim)
+
+
+def nonzero(t, as_tuple=False):
+    """indices of non-zero elements; defined here for tensors whose elements are constants (filter taps, masks)"""
+    a = t.a
+    if a.dtype == object:
+        flat = a.reshape(-1)
+        if not all(p.is_const() for p in flat):
+            raise Unsupported('torch.nonzero of a symbolic tensor')
+        mask = np.array([bool(p.const_value()) for p in flat], dtype=bool).reshape(a.shape)
+    else:
+        mask = a != 0
+    idx = np.argwhere(mask).astype(np.int64)
+    if as_tuple:
+        return tuple(Tensor(np.ascontiguousarray(idx[:, j]), int64) for j in range(idx.shape[1]))
+    return Tensor(idx, int64)
 
 
 def index_select(t, dim, idx):
